@@ -54,6 +54,11 @@ class Prop:
     def matches_known(self, finding, req, impl, reply):
         return False
 
+    def static_checks(self):
+        """Source-level obligations (e.g. the panic-site census). Returns [(name, payload)] for
+        each obligation that no longer holds."""
+        return []
+
 
 def fmt_seconds(t):
     return round(t, 2)
@@ -89,6 +94,10 @@ def run_check(prop, tier, seed):
         payload = {"property": pid, "kind": "proof-obligation", "failures": proof["failures"],
                    "note": "theorem(s) no longer check against the model regenerated from the current source"}
         violations.append(("proof", payload, False))
+
+    # static obligations tying the theorems to the source (census etc.)
+    for (name, payload) in prop.static_checks():
+        violations.append((name, payload, False))
 
     # correspondence
     all_cases = []
